@@ -222,6 +222,17 @@ def random_layout(r) -> Dict[str, Any]:
             game.append(['OptimumResultTable', 'Declarer;Denomination'])
         if r.random() < 0.2:
             glines.append({'k': 'tag', 'name': r.choice(req), 'val': f'ignored{g}'})
+        if r.random() < 0.2:
+            # an additional tag whose line is as long as the format allows, or a
+            # multiple of it, give or take one (readers that take a line in pieces)
+            L = r.choice([253, 254, 255, 256, 509, 510, 511, 765])
+            val = ''.join(r.choice('abcdefghij klmnop') for _ in range(L - 10)).strip() or 'x'
+            val = (val + 'q' * (L - 10))[:L - 10]
+            if val[0] == ' ' or val[-1] == ' ':
+                val = 'q' + val[1:-1] + 'q'
+            pos = r.randrange(0, len(glines) + 1)
+            glines.insert(pos, {'k': 'tag', 'name': 'Annot', 'val': val})
+            game.append(['Annot', val])
         lines += glines
         expect.append(game)
         if g < n:
@@ -309,6 +320,10 @@ def rand_result(r, long_names=False):
     names = {k: rand_name(r, ml, ml - 1 if long_names else 1)
              for k in ('event', 'site', 'west', 'north', 'east', 'south')}
     date = datetime.date(r.randrange(1000, 3000), r.randrange(1, 13), r.randrange(1, 29))
+    if r.random() < 0.25:
+        # a datetime is a date too (datetime.now() is what a caller has at hand)
+        date = datetime.datetime(date.year, date.month, date.day, r.randrange(24), r.randrange(60),
+                                 r.randrange(60), r.randrange(1000000) if r.random() < 0.5 else 0)
     board = r.randrange(1, 6) if r.random() < 0.7 else r.randrange(1, 1000)
     scoring = r.choice(list(Scoring))
     kw = dict(event=names['event'], site=names['site'], date=date, board_num=board,
